@@ -67,6 +67,11 @@ def render(idx, s):
                 order = list(reversed(order))
                 unmocks.append("real_t(" + ", ".join([f"a{p}" for p in order] + ["self"]) + ")")
                 real_params = [(f"a{p}", infos[p]["ty"]) for p in order] + [("u", self_ty(recv))]
+            elif form == "selfperm":
+                # `self` first, then the parameters in another order than declared (rotated left)
+                order = order[1:] + order[:1]
+                unmocks.append("real_t(" + ", ".join(["self"] + [f"a{p}" for p in order]) + ")")
+                real_params = [("u", self_ty(recv))] + [(f"a{p}", infos[p]["ty"]) for p in order]
             elif form == "noself":
                 unmocks.append("real_t(" + ", ".join(f"a{p}" for p in order) + ")")
                 real_params = [(f"a{p}", infos[p]["ty"]) for p in order]
@@ -202,10 +207,21 @@ def render_recursion(idx, depth, mode, asy):
         # a further clause follows): entered through a first call that is answered by the value
         new = f"Unimock::new((Mk::f.next_call(matching!(_)).returns(7u64).once().then().applies_unmocked().n_times({depth}).then().applies_unmocked(), Mk::f.next_call(matching!(0)).returns(90u64)))"
         counts = f"vec![{depth + 2}usize, 1]"
+    elif mode in ("partial_carveout", "strict_carveout"):
+        # an unquantified applies_unmocked() pattern in front of a broader pattern carves an exception
+        # out of it (first match wins), in a partial mock like in a strict one
+        ctor = "new_partial" if mode == "partial_carveout" else "new"
+        new = f"""Unimock::{ctor}(Mk::f.stub(|each| {{
+            each.call(matching!({depth + 1})).applies_unmocked();
+            each.call(matching!(_)).returns(7u64);
+        }}))"""
+        counts = "vec![1usize, 1]"
     else:
         new = "Unimock::new_partial(Mk::f.each_call(matching!(0)).returns(100u64))"
         counts = "vec![1usize]"
     call = f"<Unimock as Tr>::f(&u, {depth})"
+    if mode in ("partial_carveout", "strict_carveout"):
+        call = f"<Unimock as Tr>::f(&u, {depth + 1})"
     pre = ""
     if mode == "ordered_tail":
         # depth + 1 levels run the real function, the innermost call f(0) is answered with 90
@@ -217,6 +233,10 @@ def render_recursion(idx, depth, mode, asy):
     bound = " + Sync" if asy == "async_fn" else ""
     levels = depth + 1 if mode == "ordered_tail" else depth
     base = 90 if mode == "ordered_tail" else 100
+    expected_expr = f'(1..={levels}u8).rev().map(|n| format!("target{{n}}")).collect()'
+    if mode in ("partial_carveout", "strict_carveout"):
+        levels, base = 1, 7
+        expected_expr = f'vec!["target{depth + 1}".to_string()]' 
     return f"""    #[unimock(api=Mk, unmock_with=[real_t])]{at}
     pub trait Tr {{
         {a}fn f(&self, n: u8) -> u64;
@@ -231,7 +251,7 @@ def render_recursion(idx, depth, mode, asy):
         {pre}
         let r = {call};
         let events = take_events();
-        let expected: Vec<String> = (1..={levels}u8).rev().map(|n| format!("target{{n}}")).collect();
+        let expected: Vec<String> = {expected_expr};
         if events != expected {{
             return Err(format!("expected the real function to run once per level {{expected:?}}, events {{events:?}}"));
         }}
@@ -260,6 +280,12 @@ def shapes(tier):
             layouts.append((2, 1))
         for n, pos in layouts:
             out.append(dict(recv=recv, params=p, form=form, n=n, pos=pos, asy=asy, mode=mode))
+    # `self` followed by the parameters in a permuted order, all of one type (so that the wrong
+    # order type-checks as well)
+    for recv, p, asy, mode in itertools.product(RECVS, [["u8", "u8"], ["u8", "u8", "u8"], ["str", "str"]], ["sync", "async_fn"], ["strict", "partial"]):
+        if tier == "quick" and asy == "async_fn" and recv not in ("ref", "mut"):
+            continue
+        out.append(dict(recv=recv, params=p, form="selfperm", n=1, pos=0, asy=asy, mode=mode))
     # provided methods with a registered function, a skipped static function in front, and the
     # mentioned-but-unmatched fall-through of partial mocks
     for recv, p, asy, mode, dflt, static_first in itertools.product(
@@ -294,7 +320,7 @@ def run(pid, tier, replay, start):
     for s in shapes(tier):
         insts.append(Instance(len(insts), key(s), render(len(insts), s), s))
     for depth in range(0, 4):
-        for mode in ("strict", "partial", "ordered", "ordered_tail"):
+        for mode in ("strict", "partial", "ordered", "ordered_tail", "partial_carveout", "strict_carveout"):
             for asy in ("sync", "async_fn"):
                 k = f"recursion/depth{depth}/{mode}/{asy}"
                 insts.append(Instance(len(insts), k, render_recursion(len(insts), depth, mode, asy), {"recv": "ref", "recursion": depth}))
